@@ -464,7 +464,55 @@ impl Check for C05 {
             let intr = rng.bool();
             let addr = gen_address(rng);
             let (bytes, kind): (Vec<u8>, &str) = if t == "x86" || t == "amd64" {
-                match rng.below(4) {
+                match rng.below(5) {
+                    4 => {
+                        // a well-formed ModRM instruction of the opcodes the lifter knows, under every prefix
+                        // constellation: [66] [67] [seg] [REX] opcode modrm [sib] [disp] [imm]
+                        let mut b = Vec::new();
+                        for p in [0x66u8, 0x67] {
+                            if rng.chance(1, 3) {
+                                b.push(p);
+                            }
+                        }
+                        if rng.chance(1, 5) {
+                            b.push(*rng.pick(&[0x64u8, 0x65, 0x2e, 0x36, 0x3e, 0x26]));
+                        }
+                        if t == "amd64" && rng.chance(1, 2) {
+                            b.push(0x40 | rng.below(16) as u8);
+                        }
+                        let (op, imm): (&[u8], usize) = *rng.pick(&[
+                            (&[0x8b][..], 0usize), (&[0x89], 0), (&[0x8a], 0), (&[0x88], 0), (&[0x8c], 0), (&[0x8e], 0), (&[0x8d], 0), (&[0x03], 0), (&[0x01], 0), (&[0x2b], 0),
+                            (&[0x39], 0), (&[0x85], 0), (&[0x87], 0), (&[0x63], 0), (&[0xc7], 4), (&[0xc6], 1), (&[0x81], 4), (&[0x83], 1), (&[0xff], 0), (&[0xfe], 0),
+                            (&[0xf7], 0), (&[0xd3], 0), (&[0xc1], 1), (&[0x0f, 0xb6], 0), (&[0x0f, 0xbe], 0), (&[0x0f, 0xaf], 0), (&[0x0f, 0x44], 0), (&[0x0f, 0x94], 0), (&[0x0f, 0xa3], 0),
+                            (&[0x0f, 0xb1], 0), (&[0x0f, 0xc1], 0), (&[0x0f, 0x10], 0), (&[0x0f, 0x6f], 0), (&[0x0f, 0x7f], 0), (&[0x0f, 0xd6], 0), (&[0x8f], 0), (&[0x6b], 1), (&[0x69], 4),
+                        ]);
+                        b.extend_from_slice(op);
+                        let md = rng.below(4) as u8;
+                        let rm = rng.below(8) as u8;
+                        b.push(md << 6 | (rng.below(8) as u8) << 3 | rm);
+                        let a16 = b.contains(&0x67) && t == "x86";
+                        let mut disp = match md {
+                            1 => 1,
+                            2 => if a16 { 2 } else { 4 },
+                            _ => 0,
+                        };
+                        if md != 3 && !a16 {
+                            if rm == 4 {
+                                let sib = rng.u64() as u8;
+                                b.push(sib);
+                                if md == 0 && sib & 7 == 5 {
+                                    disp = 4;
+                                }
+                            } else if md == 0 && rm == 5 {
+                                disp = 4;
+                            }
+                        } else if md == 0 && a16 && rm == 6 {
+                            disp = 2;
+                        }
+                        b.extend(rng.bytes(disp));
+                        b.extend(rng.bytes(imm));
+                        (b, "modrm_form")
+                    }
                     0 => {
                         let n = 1 + rng.usize(15);
                         (rng.bytes(n), "random")
